@@ -1,13 +1,18 @@
 #!/usr/bin/env python3
-"""print the markdown table of kept seeded changes (DESIGN 11.4) from seeded/*/meta.json"""
+"""print the markdown table of kept seeded changes (DESIGN 11.5) from seeded/*/meta.json"""
 import json, os
 root = "/verif/seeded"
-print("| seeded change | breaks | what it needs to manifest | result of the checks |")
-print("|---|---|---|---|")
+print("| seeded change (seeded/<name>/) | what it is / what it needs to manifest | result |")
+print("|---|---|---|")
+n = miss = 0
 for name in sorted(os.listdir(root)):
     m = json.load(open(os.path.join(root, name, "meta.json")))
-    needs = " ".join(m["needs_to_manifest"].split())
-    # keep the first two sentences
-    short = needs[:260] + ("…" if len(needs) > 260 else "")
-    res = "; ".join(f"{k}: {v}" for k, v in m["checks"].items())
-    print(f"| `{name}` | {m['breaks_property']} | {short} | {res} |")
+    s = m.get("summary")
+    if not s:
+        needs = " ".join(m["needs_to_manifest"].split())
+        s = needs[:260] + ("…" if len(needs) > 260 else "")
+    res = "; ".join(f"**{k}**: {v}" for k, v in m["checks"].items())
+    n += 1
+    miss += "initially MISSED" in res
+    print(f"| `{name}` | {s} | {res} |")
+print(f"\n<!-- {n} seeded changes, {miss} initially missed -->")
